@@ -264,6 +264,38 @@ def decode (cfg : Cfg α) (key : Bytes) (w : Val α) (same : Bool) : Res α :=
   | .custom p => customDecode cfg p
   | .loads p => postLoads cfg p (cfg.pickler.loads p)
 
+
+/-! ### the glue in `cashews/backends/memory.py`: where encode / decode are called
+
+TTLs, LRU order and capacity are C01 / C11; here the store is just "key ↦ what `encode` returned". -/
+
+abbrev SStore (α : Type) := List (Bytes × Val α)
+
+def SStore.lookup : SStore α → Bytes → Option (Val α)
+  | [], _ => none
+  | (k', w) :: r, k => if k' = k then some w else SStore.lookup r k
+
+/-- `Memory.set` (unconditional): `value = await self._serializer.encode(...)`, then `_set`; an exception
+of `encode` leaves the store untouched -/
+def SStore.set (cfg : Cfg α) (st : SStore α) (k : Bytes) (v : Val α) : SStore α :=
+  match encode cfg k v with
+  | some w => (k, w) :: st
+  | none => st
+
+/-- `Memory.get`: `default` for an absent key, else `self._serializer.decode(...)` -/
+def SStore.get (cfg : Cfg α) (st : SStore α) (k : Bytes) : Res α :=
+  match st.lookup k with
+  | none => .dflt
+  | some w => decode cfg k w false
+
+/-- `Memory.set_many`: the same encode + `_set`, pair after pair -/
+def SStore.setMany (cfg : Cfg α) (st : SStore α) (pairs : List (Bytes × Val α)) : SStore α :=
+  pairs.foldl (fun s kv => SStore.set cfg s kv.1 kv.2) st
+
+/-- `Memory.get_many`: the same `_get`, key after key -/
+def SStore.getMany (cfg : Cfg α) (st : SStore α) (keys : List Bytes) : List (Res α) :=
+  keys.map (SStore.get cfg st)
+
 /-! ### what `hexdigest().encode()` and `f"{s:x}".encode()` look like -/
 
 def hexChar (n : Nat) : UInt8 := if n < 10 then (48 + n).toUInt8 else (87 + n).toUInt8
